@@ -116,7 +116,7 @@ Proof.
       rewrite (Hsd c E2) in E. discriminate. }
     destruct q; cbn [quant channels]; apply Hgen; try exact S2.
     destruct op; try exact S2; intros c Hc; apply S2; rewrite dmem_memb, dkeys_dmap, <- dmem_memb in Hc; exact Hc.
-  - (* ArithR *) cbn [wf] in Hwf. apply andb_prop in Hwf as (_ & Hwf). apply andb_prop in Hwf as (Hwf & Hs).
+  - (* ArithR *) cbn [wf] in Hwf. apply andb_prop in Hwf as (_ & Hwf). apply andb_prop in Hwf as (Hwf & _). apply andb_prop in Hwf as (Hwf & Hs).
     specialize (IHp q Hwf). destruct IHp as (K1 & K2). destruct (scalar_dict_keys s (channels p) (wf_nodup _ Hwf) Hs) as (S1 & S2).
     assert (Hgen : forall sd, nodupb (dkeys sd) = true -> (forall c, dmem c sd = true -> memb c (channels p) = true) ->
                      keys_ok (apply_op_dict op sd (quant q p)) (channels p)).
